@@ -198,6 +198,12 @@ pub fn check_history<S: Shape>(spec: &AnimSpec, ops: &[Op], acc: &mut Acc, mode:
                 // in the state: normally the very time the model computes (bit-exact agreement), else one of the
                 // neighbouring f32 times (`MAnim::candidate_times`); the model then continues from the observed values
                 let mut val_ok = same_all(after, &model.values);
+                if !val_ok && st_ok && model.huge() && model.total().map_or(false, |t| t.is_infinite()) {
+                    // endless timeline after an astronomically long time: the phase within the cycle is undetermined
+                    val_ok = (0..S::n()).all(|f| after.get(f).is_finite());
+                    acc.count("values_not_judged_endless_timeline_after_2^40_s", 1);
+                    model.values = after.clone();
+                }
                 if !val_ok && st_ok {
                     if model.candidate_times().iter().any(|t| same_all(after, &model.values_at(*t))) {
                         val_ok = true;
